@@ -940,10 +940,14 @@ async fn fail_all_pending(inner: &std::sync::Weak<AsyncClientInner>, err: RepeEr
         return;
     };
 
+    #[cfg(feature = "verif-hooks")]
+    crate::verif::probe_async("cm_fail_start").await;
     {
         let mut writer = inner_ref.writer.lock().await;
         let _ = writer.shutdown().await;
     }
+    #[cfg(feature = "verif-hooks")]
+    crate::verif::probe_async("cm_fail_mid").await;
 
     let waiters = {
         let mut pending = lock_pending_map(&inner_ref.pending);
